@@ -216,8 +216,11 @@ class Server(object):
                 self.connections.append(io)
             t = threading.Thread(target=self._run, args=(io,),
                                  name='srv-conn%d' % io.index, daemon=True)
-            t.start()
+            # listed before it is started (start() yields to other threads, so
+            # a join() in between must already see it); join() copes with a
+            # thread that has not been started yet
             self.threads.append(t)
+            t.start()
 
     def _run(self, io):
         try:
@@ -242,7 +245,10 @@ class Server(object):
         """Wait for all connection handlers to finish; True if they did."""
         deadline = time.monotonic() + timeout
         for t in list(self.threads):
-            t.join(max(0.0, deadline - time.monotonic()))
+            while t.ident is None and time.monotonic() < deadline:
+                time.sleep(0.001)            # listed, about to be started
+            if t.ident is not None:
+                t.join(max(0.0, deadline - time.monotonic()))
         return not any(t.is_alive() for t in self.threads)
 
     def stop(self):
